@@ -23,7 +23,9 @@ VARIABLE s
 WordChars == {48, 49, 57, 97, 101, 69, 120, 102, 46, 95}                 \* 0 1 9 a e E x f . _
 BodyChars == {97, QUOTE, BSL, 47, 42, NL, 13, 32, 43, 228, 128512}        \* a " \ / * newline CR space + a-umlaut emoji
 RawChars == {97, 38, 124, QUOTE, BSL, 32, 49, 43, 47, 42}                  \* a & | " \ space 1 + / *  : raw source text
-Alphabet == CASE Family = "words" -> WordChars [] Family = "raw" -> RawChars [] OTHER -> BodyChars
+\* "strparen": string bodies made of quotes, backslashes and parentheses - a parenthesis inside a string literal is text
+ParenChars == {97, QUOTE, BSL, 40, 41}
+Alphabet == CASE Family = "words" -> WordChars [] Family = "raw" -> RawChars [] Family = "strparen" -> ParenChars [] OTHER -> BodyChars
 \* words the small alphabet cannot spell: the RustFloatWord deviation, the i64 boundary, letter case, extreme exponents
 SpecialWords == {<<105, 110, 102>>,
                  <<73, 110, 102>>,
@@ -72,13 +74,16 @@ SourcesOf(w) ==
         w \o <<45, 49>>, w \o <<43, 57>>,                                   \* w-1, w+9: a signed exponent after any head (1e, 1E, .5e, 1.E)
         <<45>> \o w, <<43>> \o w,                                          \* -w, +w: a sign glued to the word is an operator, never part of it
         <<45>> \o w \o <<94, 50>>}                                         \* -w^2: ... and binds weaker than ^
+  ELSE IF Family = "strparen"
+  THEN {QuoteText(w), <<108, 101, 110, 40>> \o QuoteText(w) \o <<41, 32, 43, 32, 49>>,                 \* "w" and len("w") + 1
+        <<40>> \o QuoteText(w) \o <<41>>, <<QUOTE>> \o w \o <<QUOTE>>}
   ELSE {QuoteText(w), <<QUOTE>> \o w \o <<QUOTE>>, <<120, 32, 61, 32>> \o QuoteText(w) \o <<59, 32, 120>>}
 Sources == SourcesOf(s)
 
 Case(w, src) ==
   LET lx == Lex(src)
       b == Build(src) IN
-  [kind |-> "parse", check |-> "literal", src |-> src, bal |-> TRUE,
+  [kind |-> "parse", check |-> "literal", src |-> src, bal |-> (~lx.ok \/ Balanced(lx.toks)),
    \* inputs the documentation does not cover (integers beyond i64) are only required to return normally
    \* ... except the SHAPE of the tree when the only open point is the value of such a literal ("WFU")
    class |-> IF b.class = "LEXERR" THEN "LEXERR"
@@ -94,7 +99,7 @@ RECURSIVE ConcatTexts(_, _)
 ConcatTexts(ts, i) == IF i > Len(ts) THEN <<>> ELSE ts[i].x \o ConcatTexts(ts, i + 1)
 NoBlank(src) == \A i \in 1..Len(src) : src[i] \notin WhiteSpace /\ src[i] # QUOTE /\ src[i] # 47
 SpecTheorems ==
-  /\ (Family = "strings" =>
+  /\ (Family \in {"strings", "strparen"} =>
         /\ Lex(QuoteText(s)) = [ok |-> TRUE, toks |-> <<TLit(VStr(s), QuoteText(s))>>, err |-> "", kf1 |-> FALSE, unclaimed |-> FALSE]
         /\ Build(QuoteText(s)).class = "WF" /\ Build(QuoteText(s)).tree = NConst(VStr(s), QuoteText(s)))
   /\ (Family = "words" =>
